@@ -59,10 +59,11 @@ RowFailing(r, o) ==
     ELSE "ok"
 
 \* ---- sniffers ------------------------------------------------------------------------------------------
-\* detectXMLEncoding on a document (string or stream positioned at `pos`): result and stream position
+\* detectXMLEncoding on a document (string or stream positioned at `pos`): result and stream position;
+\* incdef = the includeDefault argument (FALSE: "no declaration, no BOM" is reported as None instead of utf-8)
 SniffFailing(s, o) ==
     IF o.out # "ok" THEN "SnifferReturns"
-    ELSE IF o.result # (IF Sniff(s.xml) = "default" THEN "utf-8" ELSE Sniff(s.xml)) THEN "SniffBomThenDeclarationThenUtf8"
+    ELSE IF o.result # (IF Sniff(s.xml) = "default" THEN (IF s.incdef THEN "utf-8" ELSE "none") ELSE Sniff(s.xml)) THEN "SniffBomThenDeclarationThenUtf8"
     ELSE IF o.pos # s.pos THEN "StreamPositionUntouched"
     ELSE "ok"
 MediaTypeFailing(m, o) == IF o.result # MediaDefault(m.mt) /\ ~(IsXmlApp(m.mt) /\ o.result = "utf-8") THEN "DefaultByMediaType" ELSE "ok"
